@@ -177,7 +177,7 @@ def rule_strict_equality_excludes_bool(ctx, rep, rid: str) -> None:
     """=== never holds between a boolean and a number.  The helper behind the strict-equality opcodes compares a host
     int with a host float by value (`1 === 1.0`); bool being a subclass of int, that comparison must not be reached
     with a boolean operand: `True == 1` is true for the host."""
-    rep.rule(rid, "in the helper behind the strict-equality opcodes (and indexOf/includes/switch, which use it), a host `==` between operands admitted by isinstance(.., int/float) tests of different host types is reached only after booleans were excluded: true === 1 is false", floor=1)
+    rep.rule(rid, "in the helper behind the strict-equality opcodes (and indexOf/includes/switch, which use it), a host `==` between operands admitted by isinstance(.., int/float) tests of different host types is reached only after booleans were excluded (true === 1 is false), and host identity (`a is b`) answers true only where the operands cannot be NaN", floor=1)
     from ..util import atoms, known_conditions
 
     df, chain = ctx.facts.vm_dispatcher()
@@ -212,6 +212,24 @@ def rule_strict_equality_excludes_bool(ctx, rep, rid: str) -> None:
                 rep.ok(rid, key)
         if n == 0:
             rep.ok(rid, f"{f.qual}:no-mixed-type-numeric-comparison", {"note": "the helper has no host == between operands of different host types"})
+        # identity is not equality for NaN: the one value that is not equal to itself is often ONE host object
+        # (the global NaN, a variable read twice), so `a is b` may answer True only where NaN is excluded
+        for r in f.own_nodes():
+            if not (isinstance(r, ast.Return) and r.value is not None):
+                continue
+            conds = known_conditions(r, f.node)
+            ats = [(norm(a).replace(" ", ""), p) for t, pol in conds for a, p in atoms(t, pol)]
+            ident = (f"{pa}is{pb}", f"{pb}is{pa}")
+            by_identity = (isinstance(r.value, ast.Constant) and r.value.value is True and any(a in ident and p for a, p in ats)) or (norm(r.value).replace(" ", "") in ident)
+            if not by_identity:
+                continue
+            key = f"{f.qual}:identity-answers-true:line-shape {norm(r)[:30]}"
+            nan_out = any((("isnan(" in a or a in (f"{pa}!={pa}", f"{pb}!={pb}")) and not p) or (a in (f"{pa}=={pa}", f"{pb}=={pb}") and p) for a, p in ats)
+            not_float = any(p and a.startswith(("isinstance(" + pa + ",", "isinstance(" + pb + ",")) and "float" not in a and "int" not in a.split(",", 1)[1] for a, p in ats) or any(not p and a.startswith(("isinstance(" + pa + ",", "isinstance(" + pb + ",")) and "float" in a for a, p in ats)
+            if nan_out or not_float:
+                rep.ok(rid, key)
+            else:
+                rep.bad(rid, key, f"{f.qual} answers true because the operands are the same host object (`{norm(r)[:40]}`) on a path where they can be a float: NaN is not equal to itself, and the global NaN or a variable read twice is one object, so NaN === NaN and x !== x come out wrong while 0/0 === 0/0 does not", f"{f.module.rel}:{r.lineno}")
 
 
 def rule_postfix_result_is_number(ctx, rep, rid: str) -> None:
